@@ -14,7 +14,7 @@ RULE = (
     "Product of (old state point from the C03 universe) x (route: key set, attribute set, key delete, nested "
     "edit, whole assignment, update_statepoint +-overwrite, move, clone) x (edit value incl. no-ops and "
     "Python-equal-but-differently-typed values) x (destination: absent, initialised with its own payload, "
-    "uninitialised handle only, empty directory) x (payload: none, document, files, nested files) x (acting "
+    "uninitialised handle only, empty directory, a regular file named like the id) x (payload: none, document, files, nested files) x (acting "
     "handle obtained by state point, by id, from iteration, copy.copy, deepcopy, pickle). Before the operation a "
     "copy.copy sibling, a deepcopy and a pickled copy of the handle are taken. Oracles: byte snapshot of both "
     "job directories, exception class, FS events (no mutation for no-op edits and refused updates), all live "
@@ -30,7 +30,7 @@ ASSUMPTIONS = [
 TIME_CAP = {"quick": 70, "thorough": 1500}
 
 ROUTES = ["spset", "spattr", "spdel", "spnested", "spassign", "update", "update_ow", "move", "clone"]
-DESTS = ["absent", "init", "handle", "emptydir"]
+DESTS = ["absent", "init", "handle", "emptydir", "file"]
 PAYLOADS = ["none", "doc", "files", "nested"]
 PROVS = ["sp", "id", "iter", "copy", "deepcopy", "pickle", "id_fresh"]
 
@@ -143,6 +143,10 @@ def run_case(ctx, case):
             w.apply(["file", len(w.handles) - 1, "f.txt", "data-of-destination"])
         elif case["dest"] == "handle":
             w.apply(["open", dst_p, dst_sp])
+        elif case["dest"] == "file" and not case.get("uninit"):
+            os.makedirs(os.path.join(w.paths[dst_p], "workspace"), exist_ok=True)
+            with open(os.path.join(w.paths[dst_p], "workspace", dst_id), "w") as f:
+                f.write("a regular file that happens to be named like the destination id")
         elif case["dest"] == "emptydir" and not case.get("uninit"):
             os.makedirs(os.path.join(w.paths[dst_p], "workspace", dst_id), exist_ok=True)
 
@@ -223,6 +227,35 @@ def run_case(ctx, case):
         if cached is not None and model.model_id(cached) != job.id:
             w.viol("cache-maps-id-to-foreign-statepoint", "project cache maps the job id to a state point with another hash",
                    {"id": job.id, "cached": cached})
+        ctx.distinct("nontrivial", case)
+        return
+
+    if case["dest"] == "file" and not same and existed:
+        # a regular file occupies the destination name: the operation cannot succeed; whatever it raises, both
+        # projects must be left exactly as they were (no backup file, no half-moved directory)
+        job = w.handles[act]["job"]
+        try:
+            with fsmon.Session(w.paths):
+                w_op_direct(w, job, case)
+            outcome = "returned"
+        except KeyError:
+            outcome = "refused-update"
+        except Exception as e:  # noqa
+            outcome = "raised:" + type(e).__name__
+        after_all = [model.snapshot(p) for p in w.paths]
+        ctx.monitor("destination_exists_no_change")
+        if after_all != before_all:
+            w.viol("blocked-destination-changed-disk",
+                   "the destination name is taken by a regular file, the operation " + outcome + " and the projects changed",
+                   {"diff": model.snap_diff(before_all[0], after_all[0]) + model.snap_diff(before_all[1], after_all[1])})
+        elif outcome == "returned":
+            w.viol("blocked-destination-silently-ignored", "the operation returned although the destination name is a regular file", {})
+        else:
+            # and the handle still describes the old job
+            job2 = w.handles[act]["job"]
+            if job2.id != old_id or not model.typed_eq(job2.statepoint(), old):
+                w.viol("handle-statepoint-differs-from-its-id", "after the refused operation the handle does not describe the old job",
+                       {"id": job2.id, "statepoint": model.plain(job2.statepoint())})
         ctx.distinct("nontrivial", case)
         return
 
